@@ -704,7 +704,7 @@ missing; `pd.to_datetime` on the whole column finds a timestamp (library hypothe
 structure LandsHyp (o : ColOracle) (c : Column) : Prop where
   pay : ∀ x ∈ c.cells, PayWF x
   strNotNull : StrNotNull c
-  dt : DtLands o c
+  dt : containsB .String c = true → DtLands o c
 
 /-- L3 for all 14 inference relations of the generated table -/
 theorem lands_pandas (o : ColOracle) (src dst : Ty) (g : Column → R Bool) (t : Column → R Column)
@@ -717,7 +717,7 @@ theorem lands_pandas (o : ColOracle) (src dst : Ty) (g : Column → R Bool) (t :
   · exact lands_object_boolean c c' hsrc hx
   · exact lands_string_boolean c c' hsrc hacc hx
   · exact lands_string_complex c c' hsrc hx
-  · exact lands_string_datetime o c c' hyp.dt hx
+  · exact lands_string_datetime o c c' (hyp.dt hsrc) hx
   · exact lands_string_float c c' hacc hx
   · exact lands_complex_float c c' hyp.pay hsrc hacc hx
   · exact lands_float_integer c c' hsrc hx
